@@ -6,7 +6,10 @@ import (
 	"strings"
 	"time"
 
+	"regexp"
+
 	"github.com/scrapli/scrapligo/driver/generic"
+	"github.com/scrapli/scrapligo/driver/network"
 	"github.com/scrapli/scrapligo/driver/opoptions"
 	"github.com/scrapli/scrapligo/driver/options"
 	"github.com/scrapli/scrapligo/response"
@@ -32,7 +35,8 @@ type C01 struct {
 	SearchDepth int            `json:"search_depth"`
 	NoStrip     bool           `json:"no_strip"`
 	Exact       bool           `json:"exact"`
-	Multi       bool           `json:"multi"` // one SendCommands call instead of n SendCommand calls
+	Multi       bool           `json:"multi"`             // one SendCommands call instead of n SendCommand calls
+	Network     bool           `json:"network,omitempty"` // network driver with a one-level privilege tree
 	Prompt      string         `json:"prompt"`
 	Banner      []peer.Tok     `json:"banner"`
 	Cmds        []C01Cmd       `json:"cmds"`
@@ -55,6 +59,7 @@ func genC01(seed uint64, run int, tier string) Scenario {
 	sc.NoStrip = r.IntN(3) == 0
 	sc.Exact = r.IntN(3) == 0
 	sc.Multi = r.IntN(3) == 0
+	sc.Network = r.IntN(4) == 0
 	sc.DevSeed = r.Uint64()
 	withEsc := r.IntN(2) == 0
 	withMB := r.IntN(2) == 0
@@ -120,6 +125,9 @@ func genC01(seed uint64, run int, tier string) Scenario {
 	}
 	sc.Net = genNet(r, rd, kernel.Stream(rs, "netseed").Uint64())
 	sc.Class = "generic"
+	if sc.Network {
+		sc.Class = "network"
+	}
 
 	return sc
 }
@@ -145,14 +153,31 @@ func runC01(env *Env, s Scenario) {
 	tr := simnet.New(env.K, dev, sc.Net, simnet.NoFaults())
 	rd := Micro(sc.ReadDelayUS)
 	timeout := oddTimeout(rd * 20000)
-	d, err := generic.NewDriver("sim",
+	dopts := []util.Option{
 		options.WithCustomTransport(tr),
 		options.WithAuthBypass(),
 		options.WithReadDelay(rd),
 		options.WithTransportReadSize(sc.ReadSize),
 		options.WithPromptSearchDepth(sc.SearchDepth),
 		options.WithTimeoutOps(timeout),
-	)
+	}
+	type cmdDriver interface {
+		Open() error
+		Close() error
+		SendCommand(string, ...util.Option) (*response.Response, error)
+		SendCommands([]string, ...util.Option) (*response.MultiResponse, error)
+	}
+	var d cmdDriver
+	var err error
+	if sc.Network {
+		// one privilege level whose pattern is the device's prompt: commands go through the
+		// network driver's privilege check first (one extra bare return on the first command)
+		lv := map[string]*network.PrivilegeLevel{"exec": {Name: "exec", Pattern: `(?im)^` + regexp.QuoteMeta(strings.TrimRight(sc.Prompt, " ")) + `\s*$`}}
+		dopts = append(dopts, options.WithPrivilegeLevels(lv), options.WithDefaultDesiredPriv("exec"))
+		d, err = network.NewDriver("sim", dopts...)
+	} else {
+		d, err = generic.NewDriver("sim", dopts...)
+	}
 	if err != nil {
 		env.Res.HarnessError = "NewDriver: " + err.Error()
 
@@ -252,8 +277,18 @@ func runC01(env *Env, s Scenario) {
 		wantRaw = append(wantRaw, c.Cmd...)
 		wantRaw = append(wantRaw, '\n')
 	}
-	if !bytes.Equal(dev.Raw, wantRaw) {
-		env.Fail("device-input-mismatch", "", "device received %q\nwant %q", dev.Raw, wantRaw)
+	gotRaw := dev.Raw
+	if sc.Network {
+		// the privilege check's bare returns are not part of the exchanges
+		gotRaw = nil
+		for _, l := range dev.Log {
+			if l.Line != "" {
+				gotRaw = append(gotRaw, l.Line+"\n"...)
+			}
+		}
+	}
+	if !bytes.Equal(gotRaw, wantRaw) {
+		env.Fail("device-input-mismatch", "", "device received %q\nwant %q", gotRaw, wantRaw)
 	}
 	c01Probes(env, sc, tr)
 }
